@@ -411,3 +411,12 @@ Proof.
       apply nth_error_None in Hc. lia. }
     rewrite (Hlen _ E'), (Hlen' _ E''). reflexivity.
 Qed.
+
+Lemma em_equiv_anchors g (ref tgt : list (V3 R)) s db m a :
+  graph_wf g -> conf_ok g ref -> anchors g <> [] ->
+  build g ref tgt s db = Ok m -> In a (em_equiv m) -> In a (anchors g).
+Proof.
+  intros Hwf Hc Ha Em Hin.
+  destruct (general_char g ref tgt s db Hwf Hc Ha) as (m' & Em' & _ & _ & _ & _ & Hi & _).
+  rewrite Em in Em'. inversion Em'; subst m'. apply Hi; exact Hin.
+Qed.
